@@ -106,49 +106,88 @@ type world struct {
 	nodes  []*node
 	byHash map[chainhash.Hash]*node
 	main   []*node
+	warps  []*node // leaves of the time-warp branches
 }
 
 // requiredBits re-implements btcd's (unexported) next-difficulty rule; every
 // header meant to be valid is afterwards CHECKED with btcd itself, so a slip
 // here shows up as a generator panic, not as a wrong table.
 func (w *world) requiredBits(parent *node, ts time.Time) uint32 {
+	return w.requiredBitsCtx(hctx{parent}, ts)
+}
+
+func (w *world) requiredBitsCtx(parent blockchain.HeaderCtx, ts time.Time) uint32 {
 	p := &w.params
 	if p.PoWNoRetargeting {
 		return p.PowLimitBits
 	}
-	if (parent.height+1)%w.cc.per != 0 {
+	if (parent.Height()+1)%w.cc.per != 0 {
 		if p.ReduceMinDifficulty {
-			allow := parent.hdr.Timestamp.Unix() + int64(p.MinDiffReductionTime/time.Second)
+			allow := parent.Timestamp() + int64(p.MinDiffReductionTime/time.Second)
 			if ts.Unix() > allow {
 				return p.PowLimitBits
 			}
 			it := parent
-			for it != nil && it.height%w.cc.per != 0 && it.hdr.Bits == p.PowLimitBits {
-				it = it.parent
+			for it != nil && it.Height()%w.cc.per != 0 && it.Bits() == p.PowLimitBits {
+				it = it.Parent()
 			}
 			if it == nil {
 				return p.PowLimitBits
 			}
-			return it.hdr.Bits
+			return it.Bits()
 		}
-		return parent.hdr.Bits
+		return parent.Bits()
 	}
-	first := parent
-	for i := int32(0); i < w.cc.per-1; i++ {
-		first = first.parent
+	first := parent.RelativeAncestorCtx(w.cc.per - 1)
+	if first == nil {
+		return p.PowLimitBits
 	}
-	actual := parent.hdr.Timestamp.Unix() - first.hdr.Timestamp.Unix()
+	actual := parent.Timestamp() - first.Timestamp()
 	if actual < w.cc.min {
 		actual = w.cc.min
 	} else if actual > w.cc.max {
 		actual = w.cc.max
 	}
-	nt := new(big.Int).Mul(blockchain.CompactToBig(parent.hdr.Bits), big.NewInt(actual))
+	nt := new(big.Int).Mul(blockchain.CompactToBig(parent.Bits()), big.NewInt(actual))
 	nt.Div(nt, big.NewInt(int64(p.TargetTimespan/time.Second)))
 	if nt.Cmp(p.PowLimit) > 0 {
 		nt.Set(p.PowLimit)
 	}
 	return blockchain.BigToCompact(nt)
+}
+
+// mixedCtx is a branch header whose ancestors ABOVE the fork point are taken from the main chain
+// at the same heights instead of from its own branch: the context a validator hands to btcd if it
+// resolves a candidate branch's ancestors through the accepted chain.  Used only to CONSTRUCT
+// headers on which "own branch" and "accepted chain" contexts disagree; the table always records
+// btcd's verdict on the header's own branch.
+type mixedCtx struct {
+	w  *world
+	n  *node
+	bh int32
+}
+
+func (m mixedCtx) Height() int32    { return m.n.height }
+func (m mixedCtx) Bits() uint32     { return m.n.hdr.Bits }
+func (m mixedCtx) Timestamp() int64 { return m.n.hdr.Timestamp.Unix() }
+func (m mixedCtx) Parent() blockchain.HeaderCtx {
+	return m.RelativeAncestorCtx(1)
+}
+func (m mixedCtx) RelativeAncestorCtx(d int32) blockchain.HeaderCtx {
+	if d == 0 {
+		return m
+	}
+	h := m.n.height - d
+	if h < 0 {
+		return nil
+	}
+	if h > m.bh {
+		if int(h) < len(m.w.main) {
+			return hctx{m.w.main[h]}
+		}
+		return nil
+	}
+	return hctx{m.n}.RelativeAncestorCtx(d)
 }
 
 func (w *world) mtp(parent *node) int64 {
@@ -157,6 +196,11 @@ func (w *world) mtp(parent *node) int64 {
 
 // mine makes a child of parent.  kind selects the single rule to break.
 func (w *world) mine(parent *node, ts int64, kind string) *node {
+	return w.mineBits(parent, ts, kind, 0)
+}
+
+// mineBits: as mine, with the difficulty bits given (0 = what the rules require on the own branch).
+func (w *world) mineBits(parent *node, ts int64, kind string, bits uint32) *node {
 	h := &wire.BlockHeader{
 		Version:   4,
 		PrevBlock: parent.hash,
@@ -164,6 +208,9 @@ func (w *world) mine(parent *node, ts int64, kind string) *node {
 	}
 	w.rng.Read(h.MerkleRoot[:])
 	h.Bits = w.requiredBits(parent, h.Timestamp)
+	if bits != 0 {
+		h.Bits = bits
+	}
 	if kind == "badbits" {
 		// a different (harder) target than the rules require
 		t := blockchain.CompactToBig(h.Bits)
@@ -331,6 +378,68 @@ func (w *world) build(t *tr.W) {
 			continue
 		}
 		w.extend(from, 1+rng.Intn(int(min(room, 8))), rng.Intn(4))
+	}
+	// time-warp branches: their timestamps run away from the main chain's, so that from the third
+	// header on "ancestors on the own branch" and "ancestors on the main chain at the same heights"
+	// give different median-time-past / retarget contexts.  One header of such a branch may be
+	// made INVALID on its own branch while fine against the main chain's context (kind "warp");
+	// headers that are valid on their own branch but would fail against the main chain's context
+	// arise by themselves and are counted.
+	for i, nw := 0, 1+rng.Intn(3); i < nw; i++ {
+		fpH := rng.Intn(min(4, len(w.main)-1))
+		if rng.Intn(2) == 0 {
+			fpH = rng.Intn(len(w.main) - 1)
+		}
+		fp := w.main[fpH]
+		m := 5 + rng.Intn(6)
+		fast := rng.Intn(2) == 0
+		bad := 3 + rng.Intn(m-2) // position (1-based) of the header to spoil, >= 3
+		cur := fp
+		for k := 1; k <= m; k++ {
+			var ts int64
+			if fast {
+				ts = cur.hdr.Timestamp.Unix() + int64(1500+rng.Intn(1000))
+			} else {
+				ts = w.mtp(cur) + 1 + int64(rng.Intn(20))
+			}
+			if k == bad {
+				mc := mixedCtx{w, cur, fp.height}
+				made := false
+				// (a) at or below the own branch's median-time-past, above the main chain's
+				ts2 := w.mtp(cur) - int64(rng.Intn(2))
+				hd := &wire.BlockHeader{Version: 4, Timestamp: time.Unix(ts2, 0)}
+				hd.Bits = w.requiredBitsCtx(mc, hd.Timestamp)
+				bitsFirst := rng.Intn(2) == 0 && w.requiredBits(cur, time.Unix(ts, 0)) != w.requiredBitsCtx(mc, time.Unix(ts, 0))
+				if !bitsFirst && blockchain.CheckBlockHeaderContext(hd, mc, 0, w.cc, true) == nil {
+					cur = w.mineBits(cur, ts2, "warp", hd.Bits)
+					t.Hit("tree.warpA.mtp")
+					made = true
+				} else if ob, mb := w.requiredBits(cur, time.Unix(ts, 0)), w.requiredBitsCtx(mc, time.Unix(ts, 0)); ob != mb {
+					// (b) the difficulty the main chain's retarget context would require
+					hd = &wire.BlockHeader{Version: 4, Timestamp: time.Unix(ts, 0), Bits: mb}
+					if blockchain.CheckBlockHeaderContext(hd, mc, 0, w.cc, true) == nil {
+						cur = w.mineBits(cur, ts, "warp", mb)
+						t.Hit("tree.warpA.bits")
+						made = true
+					}
+				}
+				if made {
+					if rng.Intn(2) == 0 {
+						cur = w.extend(cur, 1+rng.Intn(2), 0)[0]
+					}
+					break
+				}
+				t.Hit("tree.warpA.none")
+			}
+			cur = w.mine(cur, ts, "ok")
+			if k >= 3 && blockchain.CheckBlockHeaderContext(cur.hdr, mixedCtx{w, cur.parent, fp.height}, 0, w.cc, true) != nil {
+				t.Hit("tree.warpB") // valid on its own branch, not against the main chain's context
+			}
+		}
+		for len(cur.children) > 0 {
+			cur = cur.children[0]
+		}
+		w.warps = append(w.warps, cur)
 	}
 	// time: either every header is recent, or only those above some height
 	var maxTs int64
@@ -959,6 +1068,22 @@ func runCase(t *tr.W, rng *rand.Rand, nev int, script string) {
 			}
 			n := min(len(w.main)-1-int(tp.height), 1+rng.Intn(7))
 			headers(p, w.main[tp.height+1:int(tp.height)+1+n], "main")
+		case x < 27: // a whole time-warp branch in one message, usually from the sync peer
+			if len(w.warps) == 0 {
+				continue
+			}
+			tgt := w.warps[rng.Intn(len(w.warps))]
+			fp := tgt
+			for fp != nil && !s.onStored(fp) {
+				fp = fp.parent
+			}
+			if fp == nil || fp == tgt {
+				continue
+			}
+			if sp := s.peerID(s.bm.Digest().SyncPeer); sp != 0 && rng.Intn(4) > 0 {
+				p = sp
+			}
+			headers(p, pathTo(fp, tgt), "warp")
 		case x < 40: // a branch that forks off the stored chain
 			tgt := w.nodes[rng.Intn(len(w.nodes))]
 			tgt = randDesc(rng, tgt, rng.Intn(4))
